@@ -43,7 +43,7 @@ std::unordered_set<uint64_t>& processIds() {
 } // namespace
 
 void runC45() {
-  const long n = vrt::g_args.getInt("n", vrt::thorough() ? 6400 : 320);
+  const long n = vrt::g_args.getInt("n", vrt::thorough() ? 3200 : 160);
   const uint64_t mainId = dispenso::threadId();
   for (long idx = 0; idx < n; ++idx) {
     if (!vrt::selected(idx)) continue;
@@ -69,11 +69,12 @@ void runC45() {
     long unstable = 0;
     for (int w : s.waves) {
       std::vector<Slot> slots(static_cast<size_t>(w));
-      hs::SpinStart start(w);
+      hs::SleepStart start(w);
       std::vector<std::thread> th;
       for (int t = 0; t < w; ++t) {
         th.emplace_back([&, t] {
           Slot& sl = slots[static_cast<size_t>(t)];
+          vrt::progress(); // the thread exists and runs
           start.arriveAndWait();
           uint64_t first = dispenso::threadId();
           sl.first = first;
@@ -99,25 +100,27 @@ void runC45() {
     }
     if (s.poolThreads) {
       // ids seen inside pool workers: stable across tasks of the same worker, distinct between workers
-      dispenso::ThreadPool pool(static_cast<size_t>(s.poolThreads));
       struct PRec {
         std::atomic<uint64_t> tid{0}, id{0};
       };
       const int tasks = s.poolThreads * 8;
       std::vector<PRec> recs(static_cast<size_t>(tasks));
       std::atomic<int> done{0};
-      for (int k = 0; k < tasks; ++k) {
-        pool.schedule(
-            [&recs, &done, k] {
-              recs[static_cast<size_t>(k)].tid.store(static_cast<uint64_t>(pthread_self()), std::memory_order_relaxed);
-              recs[static_cast<size_t>(k)].id.store(dispenso::threadId(), std::memory_order_relaxed);
-              vrt::spinFor(20);
-              done.fetch_add(1, std::memory_order_relaxed);
-              vrt::progress();
-            },
-            dispenso::ForceQueuingTag());
-      }
-      while (done.load(std::memory_order_relaxed) < tasks) std::this_thread::yield();
+      {
+        dispenso::ThreadPool pool(static_cast<size_t>(s.poolThreads));
+        for (int k = 0; k < tasks; ++k) {
+          pool.schedule(
+              [&recs, &done, k] {
+                recs[static_cast<size_t>(k)].tid.store(static_cast<uint64_t>(pthread_self()), std::memory_order_relaxed);
+                recs[static_cast<size_t>(k)].id.store(dispenso::threadId(), std::memory_order_relaxed);
+                vrt::spinFor(20);
+                done.fetch_add(1, std::memory_order_relaxed);
+                vrt::progress();
+              },
+              dispenso::ForceQueuingTag());
+        }
+        while (done.load(std::memory_order_relaxed) < tasks) usleep(100);
+      } // the pool's destructor joins the workers: that is the edge for reading recs
       std::unordered_map<uint64_t, uint64_t> byThread;
       for (auto& pr : recs) {
         uint64_t tid = pr.tid.load(), id = pr.id.load();
